@@ -105,3 +105,10 @@ package transport
 //@
 //@ func RegisterTransport
 //@   before call:Unlock#1 assert called("Scheme")
+
+// ---- round 8: a connection that finishes its handshake on a closed handshaker is closed, whatever happened before ----
+//@ func (*connHandshaker).worker
+//@   ghost herr = result at call:handshake#1
+//@   ensures isnil(herr) && h.closed ==> called("Close")
+//@   ensures !isnil(herr) ==> called("Close")
+//@   ensures called("append") && called("Broadcast")
